@@ -17,13 +17,20 @@ var propC16 = &pProp{
 	bias:   specBias{nullableLoops: 55, leftRec: 12, states: 45, preds: 60, actions: 80, throws: 30, optimized: 30, display: 10, unicode: 40},
 	tier: func(tier string) pParams {
 		if tier == "thorough" {
-			return pParams{grammars: 480, inputs: 8, optSets: 3, enumMax: 400}
+			return pParams{batches: 6, grammars: 400, inputs: 8, optSets: 3, enumMax: 400}
 		}
-		return pParams{grammars: 64, inputs: 4, optSets: 2, enumMax: 160}
+		return pParams{grammars: 96, inputs: 4, optSets: 2, enumMax: 160}
 	},
 	mkReqs: func(r *rng, gp *genParser, p pParams) []*parsersim.Request {
 		var reqs []*parsersim.Request
-		for ii, in := range drawInputs(r, gp.G, p.inputs, 24) {
+		for ii, in := range drawInputs(r, gp.G, p.inputs, 40) {
+			if r.chance(1, 4) {
+				// bytes that are not UTF-8: every one adds an 'invalid encoding' error
+				// unless AllowInvalidUTF8 is on; the budget error must still come last
+				pos := r.intn(len(in) + 1)
+				bad := [][]byte{{0xff}, {0xc3}, {0xe6, 0x97}, {0x80}, {0xed, 0xa0, 0x80}}[r.intn(5)]
+				in = append(append(append([]byte(nil), in[:pos]...), bad...), in[pos:]...)
+			}
 			for k := 0; k < p.optSets; k++ {
 				o := drawOpts(r, gp, 45, 12)
 				o.UseReader = false
